@@ -529,7 +529,9 @@ func concLinearizable(c *mon.Ctx, k *mon.Case) {
 	log := &evLog{}
 	var mu sync.Mutex
 	var panics []finding
-	describe := func() any { return map[string]any{"config": cfg.String(), "transactions": nT, "ops_per_goroutine": nOps} }
+	describe := func() any {
+		return map[string]any{"config": cfg.String(), "transactions": nT, "ops_per_goroutine": nOps}
+	}
 	stopReorg := make(chan struct{})
 	watchRound(c, k, "linearizability round", describe, func() {
 		var wg, rg sync.WaitGroup
